@@ -26,6 +26,9 @@ JTS = {
     "jt2": (["A", "B", "C"], [("A", "B"), ("B", "C")], [(0, 1)]),
     "jt3": (["A", "B", "C", "D"], [("A", "B"), ("B", "C"), ("B", "D")], [(0, 1), (1, 2)]),
     "jt1": (["A", "B"], [("A", "B")], []),
+    # several factors attached to one clique (the second in another variable order); the tree's joint is the product of ALL its factors
+    "jt2dup": (["A", "B", "C"], [("A", "B"), ("B", "C")], [(0, 1)], [["B", "A"]]),
+    "jt3dup": (["A", "B", "C", "D"], [("A", "B"), ("B", "C"), ("B", "D")], [(0, 1), (1, 2)], [["C", "B"], ["B", "C"]]),
 }
 
 
@@ -139,9 +142,11 @@ def scenarios(tier, seed):
                     continue
                 out.append(dict(family="bp/mn6/query", kind="mn", model="mcycle4tail", nodes=t_nodes, card=t_card, op="query", q=q, ev=ev, joint=True,
                                 states=st, hashseed=hs, budget_s=50, amplify=False, scopes=t_scopes, fixed_factors=[0, 1, 2, 3, 4], fixed_seed=k))
-    for jname, (nodes, cliques, edges) in JTS.items():
+    for jname, spec in JTS.items():
+        nodes, cliques, edges = spec[:3]
+        extra = spec[3] if len(spec) > 3 else []
         for card in C.card_options(nodes, tier)[:2]:
-            add("jt", jname, nodes, card, dict(scopes=[list(c) for c in cliques], jt_edges=edges))
+            add("jt", jname, nodes, card, dict(scopes=[list(c) for c in cliques] + extra, cliques=[list(c) for c in cliques], jt_edges=edges))
     return out
 
 
@@ -176,7 +181,7 @@ def build_model(desc, M):
         return fg, nm, val
     if kind == "jt":
         jt = JunctionTree()
-        cl = [tuple(s) for s in desc["scopes"]]
+        cl = [tuple(s) for s in desc.get("cliques", desc["scopes"])]
         for c in cl:
             jt.add_node(c)
         for i, j in desc["jt_edges"]:
